@@ -175,6 +175,111 @@ def check_intervals(run, db):
     return n
 
 
+def _disjuncts(c):
+    """top-level disjuncts of a canonical condition, compile-time constants folded: returns (atoms, always_true)"""
+    if c.startswith('(') and c.endswith(')'):
+        depth, parts, cur = 0, [], ''
+        body = c[1:-1]
+        i = 0
+        while i < len(body):
+            ch = body[i]
+            if ch == '(':
+                depth += 1
+            elif ch == ')':
+                depth -= 1
+            if depth == 0 and body.startswith(' || ', i):
+                parts.append(cur)
+                cur = ''
+                i += 4
+                continue
+            cur += ch
+            i += 1
+        parts.append(cur)
+        if len(parts) > 1 and depth == 0:
+            atoms = parts
+        else:
+            atoms = [c]
+    else:
+        atoms = [c]
+    out = []
+    for a in atoms:
+        if re.match(r'^!\(g:std::integral_constant<bool, true>::value\)$', a) or re.match(r'^g:std::integral_constant<bool, false>::value$', a):
+            continue        # constant false
+        if re.match(r'^!\(g:std::integral_constant<bool, false>::value\)$', a) or re.match(r'^g:std::integral_constant<bool, true>::value$', a):
+            return [], True
+        out.append(a)
+    return out, False
+
+
+def check_pre_rejection(run, db):
+    """a composable deallocation must not refuse, on grounds of size / count / alignment alone, a request its allocation sibling
+    would have served: every condition under which try_deallocate_X answers false without looking at the pointer is also a condition
+    under which try_allocate_X answers null (same term, parameters named by position)"""
+    n = 0
+    groups = {}
+    for f in owner_functions(db):
+        groups.setdefault(f.cls, {})[(f.short, len(f.params))] = f
+    for cls, fns in sorted(groups.items()):
+        for (short, np), rel in sorted(fns.items()):
+            acq_name = short.replace('try_deallocate', 'try_allocate')
+            acqs = [g for g in db.fns.values() if g.cls == cls and g.short == acq_name and len(g.params) == np - 1 and not g.pattern]
+            if not acqs:
+                continue
+            acq = acqs[0]
+            traits = cls_template(cls) == 'composable_allocator_traits'
+            off = 1 if traits else 0
+            names = ['count', 'size', 'alignment'] if 'array' in short else ['size', 'alignment']
+            k = np - off - 1
+            if not traits:
+                names = (['count', 'size'] if 'array' in short else ['size'])[:k]
+            ra = {off + i: names[i] for i in range(min(k, len(names)))}
+            rr = {off: 'ptr'}
+            rr.update({off + 1 + i: names[i] for i in range(min(k, len(names)))})
+            if off:
+                ra[0] = rr[0] = 'state'
+            try:
+                SA = fwd.summarize(acq, db=db, roles=ra, no_forward=True)
+                SR = fwd.summarize(rel, db=db, roles=rr, no_forward=True)
+            except sym.PathLimit as e:
+                run.broke(str(e))
+                continue
+            acq_rej = set()
+            for sa in SA:
+                if sa.end == 'return' and sa.ret == 'null':
+                    for c, tk in sa.conds:
+                        acq_rej.add((c, tk))
+                        if tk:
+                            for a in _disjuncts(c)[0]:
+                                acq_rej.add((a, True))
+            bad = []
+            for sr in SR:
+                if sr.end != 'return' or sr.ret != 'false' or not sr.conds:
+                    continue
+                if any(_is_own_test(c) for c, tk in sr.conds):
+                    continue
+                c, tk = sr.conds[-1]
+                if '$ptr' in c:
+                    continue
+                if (c, tk) in acq_rej:
+                    continue
+                atoms, always = _disjuncts(c) if tk else ([c], False)
+                for a in atoms:
+                    if '$ptr' in a or _is_own_test(a) or _is_own_test('(%s)' % a) or a.startswith('!(') and _is_own_test(a[2:-1]):
+                        continue
+                    if (a, tk) not in acq_rej:
+                        bad.append('%s%s' % ('' if tk else 'not ', a))
+            n += 1
+            inst = '%s <-> %s [%s]' % (rel.display, acq_name, db.config)
+            inner = cls_template(cls[cls.index('<') + 1:]) if traits else cls_template(cls)
+            site = {'function': '%s::%s' % (inner, short), 'role': 'no refusal the allocation sibling does not share'}
+            if bad:
+                run.violation('R-OWN.pre', inst, rel.loc, 'refuses without looking at the pointer when [%s], a condition under which %s does not refuse: memory served for such a '
+                              'request is never taken back' % ('; '.join(sorted(set(bad))[:2])[:160], acq_name), site=site)
+            else:
+                run.ok('R-OWN.pre', inst, rel.loc, 'pre-rejections are those of %s' % acq_name)
+    return n
+
+
 def check_scope_chain(run, db):
     """memory_arena::owns returns the used-block stack's test; memory_block_stack::owns walks the chain (loop advancing over prev)"""
     n = 0
@@ -246,6 +351,7 @@ def check_fallback(run, db):
 def run(run):
     run.rule('R-OWN', 'state changes in try_deallocate_* only after a positive ownership test on the same pointer; false branch returns false untouched', floor=20)
     run.rule('R-OWN.scope', 'the ownership test covers every block the allocator hands memory out from', floor=20)
+    run.rule('R-OWN.pre', 'a composable deallocation refuses on size/alignment grounds only what its allocation sibling refuses', floor=10)
     run.rule('R-OWN-IVL', 'ownership tests are half-open intervals', floor=2)
     run.rule('R-FWD', 'fallback/segregator: default first, fallback second, acquire/release siblings agree (nesting depth 3)', floor=40)
     run.rule('W-iface', 'composable interface completeness (compile-time)', floor=1)
@@ -265,6 +371,8 @@ def run(run):
             run.broke('try_deallocate members not found [%s]' % cfg)
         if check_intervals(run, db) < 2:
             run.broke('ownership interval functions not found [%s]' % cfg)
+        if check_pre_rejection(run, db) < 6:
+            run.broke('composable siblings not found [%s]' % cfg)
         if check_scope_chain(run, db) < 2:
             run.broke('memory_arena::owns / memory_block_stack::owns not found [%s]' % cfg)
         if check_fallback(run, db) < 20:
